@@ -38,7 +38,8 @@ FINGERPRINTS = {
     'Path.iscontinuous': None, 'Path.continuous_subpaths': None, 'Path.isclosed': None,
 }
 PINNED = {     # hashes of the unrepaired tree and of the tree with both C05 repairs applied
-    'Path._calc_lengths': ('f7a685d814',), 'Path.point': ('1cbaa016c5', '6c7d8f1210'),
+    'Path._calc_lengths': ('f7a685d814', '2f71413bb7'),   # 2nd: C16's tolerance-keyed cache, same arithmetic
+    'Path.point': ('1cbaa016c5', '6c7d8f1210'),
     'Path.T2t': ('d0d39c6731', '306cc0dfa7'), 'Path.t2T': ('5c375cf2aa',),
     'Path.iscontinuous': ('12699dce58',), 'Path.continuous_subpaths': ('e684beb0f3',),
     'Path.isclosed': ('61a5bbb3d5',),
@@ -111,20 +112,55 @@ def zero_seg_spec(rng, p):
     return {'L': ['L', p, p], 'C': ['C', p, p, p, p], 'Q': ['Q', p, p, p]}[k]
 
 
+NEAR_GAPS = ['ulp', '1e-12', '1e-9', '5e-7']
+
+
+def near_point(rng, p, gaps=None):
+    """a point that is NOT equal to p but very close: 1 ulp in a coordinate, or
+    an absolute gap of 1e-12 / 1e-9 / 5e-7 (1 ulp when that gap is absorbed at
+    p's magnitude).  Returns (q, kind)."""
+    kind = rng.choice(NEAR_GAPS)
+    q = p
+    if kind != 'ulp':
+        g = float(kind)
+        q = p + g * rng.choice([1, -1, 1j, -1j, unit(rng)])
+    if q == p:
+        kind = 'ulp' if kind == 'ulp' else kind + '->ulp'
+        d = rng.choice([math.inf, -math.inf])
+        w = rng.choice(['re', 'im', 'both'])
+        q = complex(math.nextafter(p.real, d) if w != 'im' else p.real,
+                    math.nextafter(p.imag, d) if w != 're' else p.imag)
+    if gaps is not None:
+        gaps[kind] = gaps.get(kind, 0) + 1
+    return q, kind
+
+
 def gen_path_spec(rng):
     """1..12 segments, all kinds, lengths spanning 1e-6..1e6 in one path, zero
-    length segments (mostly non-leading), continuous / broken / closed"""
+    length segments (mostly non-leading), continuous / broken / closed /
+    'near': some joints nearly but not exactly coincident / 'nearclosed':
+    continuous with a nearly coincident closing joint (coordinates of size 1e-3,
+    1, 100 or 1e6)"""
     n = rng.choice([1, 1, 2, 2, 3, 3, 4, 5, 6, 7, 8, 9, 10, 11, 12])
     smode = rng.choice(['equal', 'spread', 'spread', 'extreme', 'int'])
-    cmode = rng.choice(['continuous', 'continuous', 'broken', 'closed', 'allbroken'])
+    cmode = rng.choice(['continuous', 'continuous', 'broken', 'closed', 'allbroken', 'near', 'near', 'nearclosed'])
     zmode = rng.choice(['none', 'none', 'inner', 'inner', 'trailing', 'leading'])
     base = 10 ** rng.uniform(-2, 2)
     specs = []
     pos = cx(rng, 100.0) if smode != 'int' else complex(rng.randint(-20, 20), rng.randint(-20, 20))
+    gaps = {}
+    if cmode in ('near', 'nearclosed'):
+        cs = rng.choice([1e-3, 1.0, 100.0, 1e6])
+        smode, base = 'coords~%g' % cs, cs * 10 ** rng.uniform(-1, 0)
+        pos = cx(rng, cs)
+        if cmode == 'near' and n == 1: n = 2
+        forced = rng.randrange(1, n) if n > 1 else 0
     first = pos
     for i in range(n):
         if cmode == 'allbroken' or (cmode == 'broken' and i > 0 and rng.random() < 0.35):
             pos = pos + cx(rng, 10.0) + (3 + 2j)
+        if cmode == 'near' and i > 0 and (i == forced or rng.random() < 0.4):
+            pos, _ = near_point(rng, pos, gaps)
         zero = False
         if n > 1:
             if zmode == 'inner' and i > 0 and rng.random() < 0.3: zero = True
@@ -138,15 +174,42 @@ def gen_path_spec(rng):
             sp = ['L', pos, end]
         else:
             size = {'equal': base, 'spread': base * 10 ** rng.uniform(-2, 2),
-                    'extreme': 10 ** rng.uniform(-6, 6)}[smode]
-            sp = gen_seg_spec(rng, rng.choice(KINDS), pos, size)
+                    'extreme': 10 ** rng.uniform(-6, 6)}.get(smode, base)
+            sp = gen_seg_spec(rng, rng.choice(KINDS if n > 1 or cmode != 'nearclosed' else ['L', 'Q', 'C']), pos, size)
         if cmode == 'closed' and i == n - 1 and not zero and n > 1:
             sp[-1] = first
             if sp[0] == 'A' and sp[1] == first:
                 sp = ['L', pos, first] if pos != first else zero_seg_spec(rng, pos)
+        if cmode == 'nearclosed' and i == n - 1:
+            q, _ = near_point(rng, first, gaps)
+            if zero or (sp[0] == 'A' and sp[1] == q):
+                sp = ['L', pos, q]
+            else:
+                sp[-1] = q
         specs.append(sp)
         pos = sp[-1]
-    return specs, {'n': n, 'sizes': smode, 'joints': cmode, 'zeros': zmode}
+    return specs, {'n': n, 'sizes': smode, 'joints': cmode, 'zeros': zmode, 'gaps': gaps}
+
+
+def handpicked_near():
+    """joints that are nearly, not exactly, coincident: 0.1+0.2 vs 0.3, gaps of
+    1 ulp / 1e-12 / 1e-9 / 5e-7 at coordinates of size 1, 1e-3 and 1e6, on an
+    open joint and on the closing joint of an otherwise continuous path"""
+    out = []
+    a, b = 0.1 + 0.2, 0.3                      # 0.30000000000000004 vs 0.3
+    out.append([['L', 0j, complex(a, 0)], ['L', complex(b, 0), 1 + 0j]])
+    out.append([['L', complex(b, 0), 1 + 0j], ['L', 1 + 0j, 1 + 1j], ['L', 1 + 1j, complex(a, 0)]])
+    out.append([['C', complex(0, a), 1 + 1j, 2 + 1j, complex(b, a)], ['Q', complex(b, b), 3 + 3j, 4 + 0j]])
+    for c in (1.0, 1e-3, 1e6):
+        for g in (None, 1e-12, 1e-9, 5e-7):
+            p = complex(c, c / 2)
+            q = complex(math.nextafter(p.real, math.inf), p.imag) if g is None else p + g
+            if q == p:
+                q = complex(p.real, math.nextafter(p.imag, -math.inf))
+            z = complex(-c, c)
+            out.append([['L', z, p], ['L', q, z + c]])                         # open joint
+            out.append([['L', p, z], ['L', z, z + c], ['L', z + c, q]])        # closing joint
+    return out
 
 
 def build(specs):
@@ -536,6 +599,13 @@ def list_check(o):
     for a, b in zip(subs, subs[1:]):
         if len(a) and len(b) and a[-1].end == b[0].start:
             out.append(('subpaths-not-maximal', 'pieces %r' % o['pieces']))
+    want_pieces, run = [], 1           # cut exactly at the joints where end != start (exact ==)
+    for j in joints:
+        if j: run += 1
+        else: want_pieces.append(run); run = 1
+    want_pieces.append(run if n else 0)
+    if o['pieces'] != want_pieces:
+        out.append(('subpaths-wrong-cuts', 'pieces %r, exact joints give %r' % (o['pieces'], want_pieces)))
     if o['iscont'] != (len(subs) <= 1):
         out.append(('iscontinuous-vs-pieces', 'iscontinuous()=%r, %d pieces' % (o['iscont'], len(subs))))
     if n:
@@ -635,11 +705,14 @@ def run(rep, tier, seed, replay=None):
             # smallest known members of the two rounding defect classes (lengths 1, 2, 2: T2t(0.6000000000000001))
             todo.append(([['L', 0j, 1 + 0j], ['L', 1 + 0j, 3 + 0j], ['L', 3 + 0j, 5 + 0j]],
                          {'n': 3, 'sizes': 'witness', 'joints': 'continuous', 'zeros': 'none'}, None))
+            for sp in handpicked_near():
+                todo.append((sp, {'n': len(sp), 'sizes': 'handpicked-near', 'joints': 'near', 'zeros': 'none'}, None))
             for _ in range(npaths):
                 sp, meta = gen_path_spec(rng)
                 todo.append((sp, meta, None))
         cases, metas, dist = [], [], {}
         bycatch, bycatch_ends = [], []
+        near_seen = 0
         nontrivial, evals, falloffs = set(), 0, 0
         viol_seen = {}
         for idx, (sp, meta, Ts) in enumerate(todo):
@@ -647,6 +720,9 @@ def run(rep, tier, seed, replay=None):
                 if kk in meta:
                     d = dist.setdefault(kk, {})
                     d[str(meta[kk])] = d.get(str(meta[kk]), 0) + 1
+            for gk, gv in meta.get('gaps', {}).items():
+                d = dist.setdefault('near_joint_gaps', {})
+                d[gk] = d.get(gk, 0) + gv
             # lengths are data here and must be finite and >= 0 (C06's subject): a segment whose
             # length() is inf / nan / negative is replaced by a Line and recorded as by-catch
             try:
@@ -689,6 +765,10 @@ def run(rep, tier, seed, replay=None):
                                'lengths': [float(x) for x in raw_lengths(build(small))],
                                'how': './check C05 --replay <this file>'}, key=key)
             bycatch_ends += o.get('bycatch', [])
+            pth = o['path']
+            for a_, b_ in list(zip(pth, pth[1:])) + ([(pth[-1], pth[0])] if len(pth) else []):
+                if a_.end != b_.start and abs(a_.end - b_.start) <= 1e-6:
+                    near_seen += 1
             for key, what in list_check(o):
                 if key in viol_seen:
                     viol_seen[key] += 1
@@ -727,17 +807,20 @@ def run(rep, tier, seed, replay=None):
         rep.cov['rule'] = ('random paths of 1-12 segments (Line/Quadratic/Cubic/Arc), segment sizes equal / spread 1e-2..1e2 / '
                            '1e-6..1e6 in one path, zero-length segments inner/trailing/leading, continuous/broken/closed; '
                            'T = 0, 1, 2^-53, 1-2^-53, every cumulative fraction (loop accumulation and sum()) with both float '
-                           'neighbours, random T, T near 0 and near 1 (every 8th path also T<0, T>1, nan); non-trivial = '
+                           'neighbours, random T, T near 0 and near 1 (every 8th path also T<0, T>1, nan); joints exactly '
+                           'coincident / far apart / nearly coincident (1 ulp, 1e-12, 1e-9, 5e-7 at coordinates 1e-3..1e6, '
+                           '0.1+0.2 vs 0.3; open and closing joints), list predicates judged by exact == of the stored end points; non-trivial = '
                            '(path with >= 2 segments, 0 < T < 1, T2t returned); all observations compared inside Coq with '
                            'the model run bit-exactly in PrimFloat')
         rep.cov['input_distribution'] = dist
         rep.cov['property_failures_by_class'] = viol_seen
         rep.cov['falloff_cases_seen'] = falloffs
+        rep.cov['nearly_coincident_joints_seen (0 < gap <= 1e-6, open or closing)'] = near_seen
         rep.cov['bycatch_segment_point_far_from_endpoint (C04)'] = {'count': len(bycatch_ends), 'examples': bycatch_ends[:3]}
         rep.cov['bycatch_nonfinite_segment_lengths (C06)'] = {'count': len(bycatch), 'examples': bycatch[:3]}
         rep.cov['samples'] = [{'path': spec_repr(m[0])[:300], 'T': m[2]['tcs'][-1]['T'],
                                'T2t': [m[2]['tcs'][-1]['k1'], float(m[2]['tcs'][-1]['t1'])],
-                               'pieces': m[2]['pieces']} for m in metas[4:7] if m[2]['tcs']]
+                               'pieces': m[2]['pieces']} for m in metas[-3:] if m[2]['tcs']]
     rep.assumptions += ['segment lengths are data (C06): seg.length(error, min_depth) called exactly as _calc_lengths does',
                         'builtin sum(): CPython >= 3.12 Neumaier summation on exact floats, plain fold otherwise '
                         '(modelled in Model/PathIdx.v pysum; validated bitwise on every path via _length and t2T)',
